@@ -66,7 +66,8 @@ def decorate(prog, rng, custom_types=True):
     for nid in list(prog['order']):
         n = prog['nodes'][nid]
         if nid == prog['input'] or n.get('start_of') or n.get('kind') == 'dest' or n.get('nm', 'id') != 'id' \
-                or n.get('base') or any(prog['nodes'][x].get('base') == nid for x in prog['nodes']):
+                or n.get('base') or any(prog['nodes'][x].get('base') == nid for x in prog['nodes']) \
+                or n.get('generic_of') or n.get('generic_base'):
             continue
         if n.get('params') and all(m[0] in ('in', 'sw', 'oneof', 'rec') for _, m in n['params']) and rng.random() < 0.2:
             sig = (tuple(p for p, _ in n['params']), n.get('mode'))
@@ -402,7 +403,7 @@ RULES['C15'] = ('grammar programs with every mark kind, decorated with naming va
 # C16
 # ----------------------------------------------------------------------------------------------
 
-DEFECTS = ['generic_twin', 'not_a_class', 'no_base', 'no_process', 'unannotated_param', 'unannotated_kwonly_param', 'no_annotations', 'generic_unbound',
+DEFECTS = ['generic_twin', 'generic_no_base', 'not_a_class', 'no_base', 'no_process', 'unannotated_param', 'unannotated_kwonly_param', 'no_annotations', 'generic_unbound',
            'dest_no_protocol', 'start_no_additional_data']
 
 
@@ -436,6 +437,19 @@ def inject(prog, nid, defect):
             return None     # other classes derive from it: the module itself would not import
         n['raw_src'] = f'{nid} = rt.NotAClass({nid!r})'
         return p, 'IncorrectTypeClass'
+    if defect == 'generic_no_base':
+        # build_node() of a class that has a process method but not the node base class: the derivative is not a node
+        if not n.get('params') or n.get('generic_of') or n.get('generic_base') or n.get('base') or nid == p['input'] \
+                or n.get('kind', 'plain') != 'plain' or n.get('start_of') or n.get('recurrent') \
+                or any(p['nodes'][x].get('base') == nid for x in p['nodes']):
+            return None
+        base_id = 'G' + nid[1:] + 'nb'
+        base = copy.deepcopy(n)
+        base.update(id=base_id, generic_base=True, base='object', nm=['custom', 'base_' + nid])
+        p['nodes'][base_id] = base
+        n['generic_of'] = base_id
+        p['order'].insert(p['order'].index(nid), base_id)
+        return p, 'IncorrectBaseClass'
     if defect == 'no_base':
         n['base'] = 'object'
         n.pop('recurrent', None)
@@ -565,7 +579,8 @@ def work_c16(prop, tier, seed, widx, nworkers):
     from ml_pipeline_engine.node import build_node
     from ml_pipeline_engine.node.errors import ClassExpectedError, RunMethodExpectedError
     for i in range(nprog):
-        base = gen.gen_program(rng, gen.profile(p_sw=0.25, p_oneof=0.25, p_rec=0.25, p_markless=0.15))
+        base = gen.gen_program(rng, gen.profile(p_sw=0.25, p_oneof=0.25, p_rec=0.25, p_markless=0.15,
+                                                p_generic=rng.choice([0.0, 0.0, 0.2])))      # incl. generic start nodes of recurrent subgraphs
         prog = decorate(base, rng) if rng.random() < 0.5 else base
         if rng.random() < 0.5:
             add_dest_reader(prog, rng)
